@@ -317,6 +317,16 @@ def scenarios(rng: random.Random, tier: str):
                                                          for a in (4, 3, 77)))
         out.append(prex + f" | anon {conn} | " + " | ".join(req(conn, "ghost.x", r, a) for r in ("realm.local", "realm.b", "extra.realm")
                                                           for a in (4, 3)))
+    # an application of the node first *sends* a request of its own towards a realm (served with a ready peer, served by
+    # another application only, not served at all: the last is refused as not routable) -- what the node answers to
+    # requests *arriving* for that realm afterwards is what it answers on a node that never sent anything
+    for cfgpre, ais in ((pre, (0, 2)), (prex, (0, 1))):
+        for realm in ("foreign.realm", "other.realm", "realm.local", "Foreign.Realm"):
+            for ai in ais:
+                snd = f"req {ai} {nodegen.ccr(0, 0, 'node.local', realm)} 1"
+                out.append(cfgpre + f" | {snd} | tick | " + " | ".join(req(c, f"peer{c + 1}.x", r, a) for c in (0, 1)
+                                                                      for r in (realm, "realm.local") for a in (4, 77)) +
+                           f" | {snd} | tick | " + req(2, "peer3.x", realm, 4))
     oracle.meta = meta
     return out
 
